@@ -61,7 +61,7 @@ func (c CurlyRouter) matchesRouteByPathTokens(routeTokens, requestTokens []strin
 	if len(routeTokens) < len(requestTokens) {
 		// proceed in matching only if last routeToken is wildcard
 		count := len(routeTokens)
-		if count == 0 || !strings.HasSuffix(routeTokens[count-1], "*}") {
+		if count == 0 || !isTailWildcard(routeTokens[count-1]) {
 			return false, 0, 0
 		}
 		// proceed
@@ -104,6 +104,13 @@ func (c CurlyRouter) matchesRouteByPathTokens(routeTokens, requestTokens []strin
 		}
 	}
 	return true, paramCount, staticCount
+}
+
+// isTailWildcard tells whether routeToken has the form {name:*}, which matches all remaining tokens.
+// A variable whose regular expression merely ends in * (e.g. {name:[a-z]*}) matches one token only.
+func isTailWildcard(routeToken string) bool {
+	colon := strings.Index(routeToken, ":")
+	return strings.HasPrefix(routeToken, "{") && colon != -1 && routeToken[colon+1:] == "*}"
 }
 
 // regularMatchesPathToken tests whether the regular expression part of routeToken matches the requestToken or all remaining tokens
